@@ -97,6 +97,7 @@ func (c checkSchema) checkNode(node ischema.Node, ss map[string]ischema.Type) {
 		c.checkLinksOfNode(node, ss) // can panic
 		c.checkArrayItems(node)
 		c.checkArrayNode(node)
+		c.checkArrayAgainstOrRuleSets(node, ss)
 	case *ischema.ObjectNode:
 		c.checkCompatibilityOfConstraints(node)
 		c.checkLinksOfNode(node, ss) // can panic
@@ -180,6 +181,41 @@ func (checkSchema) checkArrayNode(node ischema.Node) {
 
 	if cnstr := arrayNode.Constraint(constraint.MaxItemsConstraintType); cnstr != nil {
 		cnstr.(*constraint.MaxItems).ValidateTheArray(length)
+	}
+}
+
+// checkArrayAgainstOrRuleSets an array example that carries an "or" rule (only an
+// empty array may) must fit at least one of the alternatives that admit an array:
+// [] // {or: [{type: "array", minItems: 1}, {type: "string"}]} fits none.
+func (c checkSchema) checkArrayAgainstOrRuleSets(node ischema.Node, ss map[string]ischema.Type) {
+	arrayNode := node.(*ischema.ArrayNode)
+
+	typesList, ok := arrayNode.Constraint(constraint.TypesListConstraintType).(*constraint.TypesList)
+	if !ok || typesList == nil {
+		return
+	}
+
+	length := uint(arrayNode.Len())
+	arrays, fits := 0, 0
+	for _, name := range typesList.Names() {
+		if name == "" || name[0] != '#' {
+			continue // a named type is followed by checkArrayItems
+		}
+		root := getType(name, c.rootSchema, ss).RootNode()
+		if root.Type() != json.TypeArray {
+			continue
+		}
+		arrays++
+		if min, ok := root.Constraint(constraint.MinItemsConstraintType).(*constraint.MinItems); ok && min != nil && length < min.Value() {
+			continue
+		}
+		if max, ok := root.Constraint(constraint.MaxItemsConstraintType).(*constraint.MaxItems); ok && max != nil && length > max.Value() {
+			continue
+		}
+		fits++
+	}
+	if arrays > 0 && fits == 0 {
+		panic(errs.ErrOrRuleSetValidation.F())
 	}
 }
 
